@@ -13,6 +13,7 @@ from modcorpus import *
 from concurrent.futures import ThreadPoolExecutor
 import c02 as C02
 import ext_layer            # extensibility layer (lib/ext_layer.py, notes/design/EXT.md)
+import setdef_layer         # SET / DEFAULT layer (lib/setdef_layer.py, notes/design/SetDef.md)
 
 SYNS = ["der", "cper", "coer", "xer", "cxer"]
 TIMES = {}
@@ -286,6 +287,7 @@ def main(tier):
     wide_layer(run, wmods, wrng if wmods else rng, tier)
     TIMES["wide_run_s"] = round(time.time() - t0, 1)
     ext_layer.run_c01(run, rng, tier)
+    setdef_layer.run_c01(run, rng, tier)
     tb = ["Coq 8.16.1 kernel; vm_compute for the Example", "axioms under Print Assumptions: " + (", ".join(sorted(axioms)) or "none (Closed under the global context)"),
           "extraction: ExtrOcamlBasic only; OCaml 4.13.1", "lib/modgen.py (generator, independent X.680 tagging), lib/widefind.py (wide generator, classifier predicates of the known findings), harness/moddrv.c + harness/moddrv_wide.inc (the rt/wrt battery is the property evaluated in C; deep constraint walk; value-level facts), gcc + ASan/UBSan",
           "values of the wide layer come from the library's own asn_random_fill"]
